@@ -674,7 +674,13 @@ class PEval:
             if isinstance(s, ast.For):
                 it = self.ev(s.iter, st)
                 s1 = st.fork()
-                self.assign(s.target, Unk(f"<item of {show(it)}>") if not isinstance(s.target, (ast.Tuple, ast.List)) else Unk(f"<item of {show(it)}>"), s1)
+                item = Unk(f"<item of {show(it)}>")
+                if isinstance(it, SymList) and it.sep is None and it.elt is not None:
+                    item = it.elt
+                elif isinstance(s.iter, ast.Call) and isinstance(s.iter.func, ast.Name) and s.iter.func.id == 'map' and len(s.iter.args) == 2 and not s.iter.keywords:
+                    # an element of map(f, xs) is f(<element of xs>)
+                    item = Unk(f"{show(self.ev(s.iter.args[0], s1))}(<item of {show(self.ev(s.iter.args[1], s1))}>)")
+                self.assign(s.target, item, s1)
             else:
                 s1 = st.fork()
             for kind, val, s2 in self.block(s.body, s1):
